@@ -161,6 +161,11 @@ def eq_values(interp, a, b):
     objects differ by identity, so structures/enums/pointers are compared by class *name* and content."""
     from dissect.cstruct.types.structure import StructureMetaType, UnionMetaType
 
+    # members of a union that are structures are handed out through UnionProxy: compare what they stand for
+    while type(a).__name__ == "UnionProxy":
+        a = object.__getattribute__(a, "__target__")
+    while type(b).__name__ == "UnionProxy":
+        b = object.__getattribute__(b, "__target__")
     if isinstance(a, (SEnum, SPtr)) or isinstance(b, (SEnum, SPtr)):
         if type(a) is not type(b) or a.cls.__name__ != b.cls.__name__:
             return False
@@ -232,6 +237,20 @@ def native_equiv(a, b):
     if isinstance(a, (bytes, str)):
         return bytes(a) == bytes(b) if isinstance(a, bytes) else str(a) == str(b)
     return a == b
+
+
+def data_extent(t):
+    """Offset just past the last data-carrying byte of a fixed-size type (tail padding, also nested, carries no data)."""
+    from dissect.cstruct.types import BaseArray, Structure
+    from dissect.cstruct.types.structure import UnionMetaType
+
+    if isinstance(t, UnionMetaType):
+        return max((data_extent(f.type) for f in t.__fields__), default=0)
+    if isinstance(t, type) and issubclass(t, Structure):
+        return max(((f.offset or 0) + data_extent(f.type) for f in t.__fields__), default=0)
+    if isinstance(t, type) and issubclass(t, BaseArray) and isinstance(t.num_entries, int) and t.type.size is not None:
+        return 0 if t.num_entries == 0 else (t.num_entries - 1) * t.type.size + data_extent(t.type)
+    return t.size or 0
 
 
 def sizes_of(obj):
@@ -390,6 +409,14 @@ class Pipeline(T2Case):
             # size agreement is stated for complete inputs (a union may be parsed from an input that lacks only tail padding)
             ctx.assume(zint(p) + T.size <= D.length())
         reads = [e for e in s.log if e[0] == "read"]
+        if self.want("C08") and T.size is not None and self.prog.union:
+            # a fixed-size union reads its whole size at once, tail padding included; an input that lacks only (part of)
+            # that padding holds every data-carrying byte and is accepted by design (same value, dumps() re-pads): such
+            # lengths are outside C08's statement ("before the last data-carrying byte")
+            extent = data_extent(T)
+            if extent < T.size:
+                avail = _norm(D.length() - zint(p))
+                ctx.assume(z3.Or(avail >= T.size, avail < extent))
         if self.want("C08"):
             bad = [e for e in reads if e[4] not in PROBE_FUNCS and _short(e)]
             goal = True
